@@ -207,6 +207,37 @@ func (m *Geom) Norm() *Geom {
 	return m
 }
 
+// fillTopDown fills the empty collection gc according to m, attaching nested
+// collections before they are filled.
+func fillTopDown(gc *geom.GeometryCollection, m *Geom) error {
+	for _, c := range m.G {
+		if c.T == GC {
+			inner := geom.NewGeometryCollection()
+			if err := gc.Push(inner); err != nil {
+				return err
+			}
+			if err := fillTopDown(inner, c); err != nil {
+				return err
+			}
+			continue
+		}
+		k, err := Build(c)
+		if err != nil {
+			return err
+		}
+		if err := gc.Push(k); err != nil {
+			return err
+		}
+	}
+	if m.Fixed {
+		if err := gc.SetLayout(geom.Layout(m.L)); err != nil {
+			return err
+		}
+	}
+	gc.SetSRID(m.S)
+	return nil
+}
+
 // Clone returns a deep copy of the model.
 func (m *Geom) Clone() *Geom {
 	if m == nil {
@@ -582,6 +613,15 @@ func Build(m *Geom) (g geom.T, err error) {
 		mp.SetSRID(m.S)
 		return mp, nil
 	case GC:
+		if how == 2 {
+			// top-down: a nested collection is attached to its parent first
+			// and filled afterwards (as a recursive builder does)
+			gc := geom.NewGeometryCollection()
+			if err := fillTopDown(gc, m); err != nil {
+				return nil, err
+			}
+			return gc, nil
+		}
 		gc := geom.NewGeometryCollection()
 		var kids []geom.T
 		for _, c := range m.G {
